@@ -94,11 +94,11 @@ def main(tier="quick"):
             probs = []
             if a["status"] not in ("ok", "violation"):
                 continue
-            if second[s]["a"] != a["a"]:
+            if second[s]["status"] in ("ok", "violation") and second[s]["a"] != a["a"]:
                 probs.append("second-execution")
             if "replay" in a and a["replay"] != a["a"]:
                 probs.append("record-vs-replay")
-            if s in fresh and fresh[s]["a"] != a["a"]:
+            if s in fresh and fresh[s]["status"] in ("ok", "violation") and fresh[s]["a"] != a["a"]:
                 probs.append("fresh-interpreter")
             if probs:
                 bad += 1
